@@ -263,6 +263,18 @@ def screened(ctx):
     return first
 
 
+def pinned_nonzero(ctx):
+    """the adaptive rule with a NON-ZERO terminal value: delta is the change of |psi|^2 of the state the step ends with (the
+    terminal sites are held, so they contribute nothing), also in a quiet film where nothing else changes much"""
+    dev = zoo.make_device("bar", ctx.rng, max_edge_length=1.0)
+    first = None
+    for tp, kw in ((1.0, dict(applied_vector_potential=0.1)), (0.6, dict(applied_vector_potential=0.2, terminal_currents={"source": 0.5, "drain": -0.5}))):
+        st = dict(dt_init=1e-3, dt_max=1e3, adaptive=True, adaptive_window=2, adaptive_time_step_multiplier=0.25, max_solve_retries=3, terminal_psi=tp)
+        first = first or eval_run(ctx, dev, kw, st, "none", 14 if ctx.quick else 40, with_model=False)
+        ctx.count("drive:pinned_nonzero_terminal_value")
+    return first
+
+
 def devices(ctx):
     dev = zoo.make_device("bar", ctx.rng, max_edge_length=1.0)
     weak = dict(applied_vector_potential=0.3, terminal_currents={"source": 2.0, "drain": -2.0})
@@ -303,6 +315,7 @@ def seeded_bounds(ctx):
 def run(ctx):
     seeded_bounds(ctx)
     screened(ctx)
+    pinned_nonzero(ctx)
     dev, drives = devices(ctx)
     nsteps = 14 if ctx.quick else 40
     sts = settings(ctx.rng, ctx.quick)
@@ -317,7 +330,7 @@ def run(ctx):
 
 
 def search(ctx):
-    f = screened(ctx)
+    f = screened(ctx) or pinned_nonzero(ctx)
     if f:
         return f
     dev, drives = devices(ctx)
